@@ -29,6 +29,12 @@ def variants(key):
     upg = [b"websocket", b"WebSocket", b" websocket ", b"h2c, websocket", b"websocket2", b"", None]
     con = [b"Upgrade", b"upgrade", b"keep-alive, Upgrade", b"keep-alive", b"Upgrade2", None]
     acc = [good, other, good[:-2], good.swapcase(), good + b"x", b"", None, b" " + good + b" "]
+    # each header must carry its own token: the token of one header inside the other one proves nothing
+    cross = [(None, b"Upgrade, websocket"), (b"websocket, Upgrade", None), (b"websocket, Upgrade", b"keep-alive"), (b"h2c", b"Upgrade, websocket"),
+             (b"upgrade", b"websocket"), (b"Upgrade", b"Upgrade"), (b"websocket", b"websocket")]
+    for u, c in cross:
+        hs = ([(b"Upgrade", u)] if u is not None else []) + ([(b"Connection", c)] if c is not None else []) + [(b"Sec-WebSocket-Accept", good)]
+        yield hs
     for u, c, a in itertools.product(upg, con, acc):
         hs = []
         if u is not None:
